@@ -88,7 +88,8 @@ func (d *EventTriggerDefinition) MarshalBytes() []byte {
 // Validate checks if the event trigger definition is valid.
 //
 // A trigger definition is valid if
-//   - all log predicates are valid and
+//   - all log predicates are valid (this includes that the argument of a BytesEq predicate on a
+//     topic is exactly one 32 byte word) and
 //   - there are no two log BytesEq predicates for the same topic
 func (d *EventTriggerDefinition) Validate() error {
 	for i, lp := range d.LogPredicates {
@@ -185,11 +186,21 @@ func (p *LogPredicate) Validate() error {
 	if err := p.ValuePredicate.Validate(); err != nil {
 		return err
 	}
+	// Topics are always one word. ToFilterQuery relies on this for BytesEq predicates.
+	if p.LogValueRef.IsTopic() && p.ValuePredicate.Op == BytesEq && len(p.ValuePredicate.ByteArgs[0]) != Word {
+		return fmt.Errorf(
+			"BytesEq argument for topic %d must have %d bytes, got %d",
+			p.LogValueRef.Offset, Word, len(p.ValuePredicate.ByteArgs[0]))
+	}
 	return nil
 }
 
 func (p *LogPredicate) Match(log *types.Log) (bool, error) {
-	value := p.LogValueRef.GetValue(log)
+	value, ok := p.LogValueRef.getValue(log)
+	if !ok {
+		// The log's data is not encoded as the definition expects.
+		return false, nil
+	}
 	return p.ValuePredicate.Match(value)
 }
 
@@ -211,14 +222,22 @@ func (r *LogValueRef) IsTopic() bool {
 
 // GetValue retrieves a slice from the log based on the LogValueRef.
 //
-// In case the referenced slice exceeds the log's data length, the
+// In case a referenced data word exceeds the log's data length, the
 // result will be zero-padded on the right to the expected length.
+// In case a dynamic reference does not lie within the log's data, the result is nil.
 func (r *LogValueRef) GetValue(log *types.Log) []byte {
+	value, _ := r.getValue(log)
+	return value
+}
+
+// getValue is GetValue, but additionally reports if the reference could be resolved. This is
+// not the case if a dynamic reference points outside of the log's data.
+func (r *LogValueRef) getValue(log *types.Log) ([]byte, bool) {
 	if r.IsTopic() {
 		if uint64(len(log.Topics)) <= r.Offset {
-			return nil
+			return nil, true
 		}
-		return log.Topics[r.Offset].Bytes()
+		return log.Topics[r.Offset].Bytes(), true
 	}
 
 	if r.Dynamic {
@@ -238,14 +257,15 @@ func (r *LogValueRef) GetValue(log *types.Log) []byte {
 		copy(value, log.Data[startByte:availableEnd])
 	}
 
-	return value
+	return value, true
 }
 
 // getOffsetDataValue retrieves a "complex" data value from the log based on the LogValueRef.
 //
-// In case a slice of log data is referenced and the slice exceeds the log's data length, the
-// result will be zero-padded on the right to the expected length.
-func (r *LogValueRef) getOffsetDataValue(log *types.Log) []byte {
+// The offset word, the length word and the value they describe must lie within the log's data.
+// Otherwise the reference cannot be resolved and the second return value is false. Offset and
+// length are taken from the log and must not be trusted.
+func (r *LogValueRef) getOffsetDataValue(log *types.Log) ([]byte, bool) {
 	// abi encoded log data:
 	// W1: first argument value (simple) or offset_0 (complex)
 	// W2: second argument value (simple) or offset_1 (complex)
@@ -260,27 +280,34 @@ func (r *LogValueRef) getOffsetDataValue(log *types.Log) []byte {
 	//		- reading the `value_length` from `data[internal_offset:internal_offset+WORD]`
 	//		- reading the `value` from `data[internal_offset+WORD:internal_offset+WORD+value_length]`
 	//
+	dataLen := uint64(len(log.Data))
 	dataOffset := r.Offset - 4
 
 	offsetStartByte := dataOffset * Word
-
-	x := log.Data[offsetStartByte : offsetStartByte+Word]
-
-	lengthByteOffset := new(big.Int).SetBytes(x).Uint64()
-	y := log.Data[lengthByteOffset : lengthByteOffset+Word]
-	length := new(big.Int).SetBytes(y).Uint64()
-	value := make([]byte, length)
-	startByte := lengthByteOffset + Word
-	endByte := startByte + length
-
-	if startByte < uint64(len(log.Data)) {
-		availableEnd := uint64(len(log.Data))
-		if endByte < availableEnd {
-			availableEnd = endByte
-		}
-		copy(value, log.Data[startByte:availableEnd])
+	if offsetStartByte > dataLen || dataLen-offsetStartByte < Word {
+		return nil, false
 	}
-	return value
+	lengthByteOffset, ok := wordToUint64(log.Data[offsetStartByte : offsetStartByte+Word])
+	if !ok || lengthByteOffset > dataLen || dataLen-lengthByteOffset < Word {
+		return nil, false
+	}
+	length, ok := wordToUint64(log.Data[lengthByteOffset : lengthByteOffset+Word])
+	startByte := lengthByteOffset + Word
+	if !ok || length > dataLen-startByte {
+		return nil, false
+	}
+	value := make([]byte, length)
+	copy(value, log.Data[startByte:startByte+length])
+	return value, true
+}
+
+// wordToUint64 converts a big endian word to a uint64 if it fits.
+func wordToUint64(word []byte) (uint64, bool) {
+	n := new(big.Int).SetBytes(word)
+	if !n.IsUint64() {
+		return 0, false
+	}
+	return n.Uint64(), true
 }
 
 const (
